@@ -82,8 +82,8 @@ fn step_strategy() -> impl Strategy<Value = Step> {
 fn strat(max_ops: usize, max_steps: usize) -> impl Strategy<Value = Case> {
 	(
 		(world_spec(vec![Topology::Pair]), any::<bool>(), proptest::collection::vec(op_strategy(weights()), 12..max_ops)),
-		(prop_oneof![Just(0u8), Just(1u8), Just(2u8), Just(3u8)], any::<u16>(), proptest::bool::weighted(0.25)),
-		(prop_oneof![5 => Just(0u8), 2 => 1u8..8, 4 => 72u8..110], proptest::bool::weighted(0.3), 0u8..11, prop_oneof![Just(253u32), 253u32..5_000, 253u32..40_000], proptest::bool::weighted(0.8)),
+		(prop_oneof![2 => Just(0u8), 2 => Just(1u8), 4 => Just(2u8), 3 => Just(3u8)], any::<u16>(), proptest::bool::weighted(0.25)),
+		(prop_oneof![4 => Just(0u8), 2 => 1u8..8, 5 => 72u8..110], proptest::bool::weighted(0.3), 0u8..11, prop_oneof![Just(253u32), 253u32..5_000, 253u32..40_000], proptest::bool::weighted(0.8)),
 		proptest::collection::vec(step_strategy(), 2..max_steps),
 	)
 		.prop_map(|((mut spec, x_funder, mut ops), (k_bias, k_pick, img_first), (advance, disconnect, v_style, v_fee, tk_deliver), steps)| {
@@ -463,7 +463,7 @@ fn oracle_inner(c: &Case, ctx: &mut Ctx, run: &mut Run, trace: &mut Vec<String>)
 }
 
 /// every revoked state of one history, each against the same generated schedule (fault-enumeration flavour)
-fn oracle_every_k(c: &Case, ctx: &mut Ctx) -> CaseResult {
+fn oracle_every_k(c: &Case, ctx: &mut Ctx, known: &[String]) -> CaseResult {
 	let mut n = 0u16;
 	let mut with_htlc = 0;
 	loop {
@@ -471,15 +471,21 @@ fn oracle_every_k(c: &Case, ctx: &mut Ctx) -> CaseResult {
 		cc.fixed_k = Some(n);
 		let mut sub = Ctx::default();
 		sub.replay = ctx.replay;
-		match run_case(&cc, &mut sub).map_err(|mut f| {
-			f.detail = format!("[state k={}] {}", n, f.detail);
-			f
-		})? {
-			Some((revoked, nontrivial)) if (n as usize) < revoked => {
+		match run_case(&cc, &mut sub) {
+			Ok(Some((revoked, nontrivial))) if (n as usize) < revoked => {
 				n += 1;
 				with_htlc += nontrivial as u32;
 			},
-			_ => break,
+			Ok(_) => break,
+			// a listed finding in one state must not hide the remaining states of this history
+			Err(f) if known.iter().any(|k| *k == f.key) => {
+				ctx.label(&format!("known-finding-in-state:{}", f.key));
+				n += 1;
+			},
+			Err(mut f) => {
+				f.detail = format!("[state k={}] {}", n, f.detail);
+				return Err(f);
+			},
 		}
 		if n >= 60 {
 			break;
@@ -504,6 +510,8 @@ fn oracle_every_k(c: &Case, ctx: &mut Ctx) -> CaseResult {
 fn main() {
 	install_recording_signer();
 	let mut c = Check::new("C06", "exploration");
+	let thorough = c.tier() == Tier::Thorough;
+	let known: Vec<String> = load_known_findings("C06").into_iter().filter(|k| k.status == "known").map(|k| k.key).collect();
 	c.assume("V is an unmodified LDK node; X follows the protocol during the history and cheats only by confirming a revoked commitment and the HTLC transactions its own out-of-date ChannelMonitor produces for it (preimages X's monitor knew while that state was current)");
 	c.assume("the chain simulator (libbitcoinconsensus scripts, nLockTime, BIP-68, fee >= 0) is ground truth; relay policy, pinning and reorgs are out of scope; V's transactions are mined within the schedule and always before X's CSV matures");
 	c.assume("V lags the chain by at most 7 blocks; a conflict of a V transaction with a spend confirmed above the height V had been told about is benign; fee monotonicity uses a 2% tolerance");
@@ -511,12 +519,23 @@ fn main() {
 		PartSpec {
 			name: "revoked-broadcast",
 			rule: "generated history (all channel types, HTLCs both ways, dust, claims, fails, fee changes), any revoked state of X (bias oldest / newest revoked / most HTLCs), generated subset of X's HTLC-success/-timeout confirmed before V's claims, V's delivery style, lag, fee estimates and reloads. Non-trivial: the revoked commitment had >=1 HTLC output and (>=1 X second-stage transaction confirmed first or the state is >=3 commitments old)",
-			quick_cases: 800,
-			thorough_cases: 40_000,
+			quick_cases: 1200,
+			thorough_cases: 30_000,
 			max_shrink: 300,
 		},
-		|| strat(70, 18),
+		move || if thorough { strat(160, 26) } else { strat(70, 18) },
 		oracle,
+	);
+	c.part_with(
+		PartSpec {
+			name: "every-revoked-state",
+			rule: "one generated history and schedule, replayed once for EVERY revoked commitment of X in that history (fresh world each time). Non-trivial: >=3 revoked states were played and at least one of them met the first part's rule",
+			quick_cases: 48,
+			thorough_cases: 1500,
+			max_shrink: 60,
+		},
+		move || if thorough { strat(90, 14) } else { strat(40, 10) },
+		move |c, ctx| oracle_every_k(c, ctx, &known),
 	);
 	c.finish();
 }
